@@ -211,6 +211,25 @@ def collect_tensors(obj, out, depth=0):
             pass
 
 
+def collect_direct(obj, out, depth=0):
+    """the tensors handed out directly by a read (tensor, or dict / list / tuple / (key, value) pairs of tensors) — not the
+    leaves of tensor collections inside the result"""
+    t = T()
+    if depth > 6:
+        return
+    if is_tensor(obj):
+        if not t["is_nt"](obj):
+            out.append(obj)
+    elif t["is_nt"](obj) or t["is_coll"](type(obj)) or t["is_tc"](obj):
+        return
+    elif isinstance(obj, dict):
+        for v in obj.values():
+            collect_direct(v, out, depth + 1)
+    elif isinstance(obj, (list, tuple)):
+        for v in obj:
+            collect_direct(v, out, depth + 1)
+
+
 # =============================================================================================== fixtures
 KINDS = ["regular", "nested", "lazy", "sub", "tensorclass", "memmap", "shared"]
 LAYOUTS = ["contiguous", "offset", "strided", "transposed", "expanded", "zerofeat", "zerobatch", "mixed"]
@@ -334,8 +353,26 @@ def build_fixture(spec):
         mbs = bs[:sd] + bs[sd + 1:]
         if nm == 0:
             nm, bs = 2, bs[:sd] + [2] + bs[sd + 1:]
+        # member counts 1..3(4): a third of the stacks have ONE member — built so, or left with one member by a view-producing
+        # operation on a larger stack (lazy[k:k+1] on the stack dim, split(1, sd)[k], chunk(n, sd)[k]) — seeded change C07-4
+        form = (spec["v"] // 3) % 6
+        if form == 0:
+            nm, bs = 1, bs[:sd] + [1] + bs[sd + 1:]
         members = [to_td(nested_source(mbs, layout, rng, half, seed0=5 * i), mbs, dev) for i in range(nm)]
-        fx.td = t["lazy_stack"](members, sd)
+        full = t["lazy_stack"](members, sd)
+        fx.td = full
+        fx.lazy_form = "built:%d" % nm
+        if form in (1, 2, 3) and nm >= 2:
+            k = spec["v"] % nm
+            if form == 1:
+                fx.td = full[(slice(None),) * sd + (slice(k, k + 1),)]
+            elif form == 2:
+                fx.td = full.split(1, sd)[k]
+            else:
+                fx.td = full.chunk(nm, sd)[k]
+            fx.lazy_form = ["", "slice", "split", "chunk"][form] + ":1-of-%d" % nm
+            if not isinstance(fx.td, t["Lazy"]):
+                fx.td, fx.lazy_form = full, "built:%d" % nm
         fx.extra_handles = members
     elif kind == "sub":
         # the source has one more row than the window; windows: int / slice / (slice, int) / integer list / mask
@@ -508,11 +545,17 @@ BINARY = {"add_": [3.0, -2.0], "sub_": [3.0], "mul_": [2.0, -1.0], "div_": [2.0,
           "maximum_": None, "minimum_": None, "clamp_max_": [5.0], "clamp_min_": [-5.0]}
 
 
+# pow / div round differently on vectorised (contiguous clone) and strided code paths once the values are no longer exactly
+# representable (histories of pow_ reach 1e17): compared with rtol 1e-6 like the transcendental kernels, never bit-exactly
+ROUNDING_BINARY = {"pow_", "div_"}
+
+
 def _mk_binary(name):
     def make_scalar(td, rng):
         c = rng.choice(BINARY[name])
         f = getattr(T()["torch"].Tensor, name)
-        return Call(lambda x: getattr(x, name)(c), {"m": name, "other": c}, expect=lambda p, v: f(v.clone(), c))
+        return Call(lambda x: getattr(x, name)(c), {"m": name, "other": c}, expect=lambda p, v: f(v.clone(), c),
+                    exact=name not in ROUNDING_BINARY)
 
     def make_td(td, rng):
         paths = leafpaths(td)
@@ -533,7 +576,7 @@ def _mk_binary(name):
         torch = T()["torch"]
         f = getattr(torch.Tensor, name, None) or (lambda a, b: getattr(torch, name[:-1])(a, b))
         return Call(lambda x: getattr(x, name)(other), {"m": name, "other": "td"}, args=[other],
-                    expect=lambda p, v: f(v.clone(), vals[p]))
+                    expect=lambda p, v: f(v.clone(), vals[p]), exact=name not in ROUNDING_BINARY)
 
     if BINARY[name] is not None:
         OPS.append(Op(name + ":scalar", name, "inplace", make_scalar))
@@ -553,7 +596,8 @@ def _mk_aug(name):
 
     def make(td, rng):
         f = getattr(T()["torch"].Tensor, tname)
-        return Call(lambda x: fop(x, c), {"m": name, "other": c}, expect=lambda p, v: f(v.clone(), c))
+        return Call(lambda x: fop(x, c), {"m": name, "other": c}, expect=lambda p, v: f(v.clone(), c),
+                    exact=tname not in ROUNDING_BINARY)
     OPS.append(Op(name, name, "inplace", make))
 
 
@@ -1169,6 +1213,13 @@ def _clone(td, rng):
 @op("to_tensordict", "to_tensordict", "copy")
 def _to_tensordict(td, rng):
     return Call(lambda x: x.to_tensordict(), {"m": "to_tensordict"})
+
+
+@op("densify:lazy", "densify", "copy")
+def _densify(td, rng):
+    if not isinstance(unwrap(td), T()["Lazy"]):
+        return None
+    return Call(lambda x: x.densify(), {"m": "densify"})
 
 
 @op("masked_fill", "masked_fill", "copy")
@@ -1876,10 +1927,16 @@ SKIPPED = {
 # =============================================================================================== running one case
 S1, S2 = -12345.0, -54321.0
 LAZY_READS = {"get", "__getitem__:key", "get_at:basic", "items/values", "to_dict"}
+# reading a LEAF of a lazy stack stacks the members' entries: a fresh tensor by design, whatever the number of members — judged
+# as a copy on the tensors handed out directly (nested results are stacks of the members' own nodes: views).  get_at may answer
+# with a view of one member's entry (basic index on the stack dim): not demanded
+LAZY_FRESH_READS = {"get", "__getitem__:key", "items/values", "to_dict"}
+# a lazy stack never is contiguous (is_contiguous() is False): contiguous() / densify() must deep-copy like clone / to_tensordict
+LAZY_STRICT_COPY = {"contiguous", "densify:lazy"}
 # documented as returning fresh tensors (clone, to_tensordict, advanced indexing, contiguous on non-contiguous data are
 # judged by the 'copy' / 'rule' oracles); every other out-of-place computation is only required to leave held tensors
 # untouched -- whether its result is fresh is recorded as an observation (compared with the model), not demanded
-STRICT_COPY = {"clone", "to_tensordict"}
+STRICT_COPY = {"clone", "to_tensordict", "densify:lazy"}
 # layout-dependent results not named by the property: observed and compared with the model, not demanded
 WEAK_RULE = {"reshape", "flatten", "to:same", "apply:identity"}
 LAZY_MATERIALISING = {"expand", "flatten_keys", "unflatten_keys", "split_keys"}
@@ -1916,8 +1973,12 @@ def eff_class(opx, fx):
     if (cls == "copy" and opx.name not in STRICT_COPY) or opx.name in WEAK_RULE:
         cls = "fresh?"
     if kind == "lazy":
+        if opx.name in LAZY_STRICT_COPY:
+            return "copy"
+        if opx.name in LAZY_FRESH_READS:
+            return "lazy-read"  # a fresh tensor by design: judged as a copy on the tensors handed out directly
         if opx.name in LAZY_READS:
-            return "pure"       # reading an entry of a lazy stack stacks the members' entries: a fresh tensor by design
+            return "pure"
         if cls in ("rule", "view-or-reject"):
             return "pure"       # the stacked td-level leaf is never the caller's tensor; members are judged by C08
     if kind == "sub":
@@ -2019,6 +2080,8 @@ def _run_case(case, fx):
             "locked_inplace_key_removal_in_history": fx.spec["kind"] in ("memmap", "shared")
             and any(h[0] == "select:inplace" for h in case.get("hist", []))}
 
+    if fx.spec["kind"] == "lazy":
+        sig0["lazy_form"] = getattr(fx, "lazy_form", None)
     sig0.update(call.flags)
 
     def fail(label, detail, **sig):
@@ -2099,6 +2162,11 @@ def _run_case(case, fx):
         out["obs"]["result_shares"] = any(sptr(r) in U for r in rts)
         return out
     want_share = {}   # id(r) -> bool
+    if cls == "lazy-read":
+        rts = []
+        collect_direct(res, rts)
+        rts = [r for r in rts if not r.is_nested and r.numel() > 0]
+        cls = "copy"
     if cls == "copy":
         for r in rts:
             want_share[id(r)] = False
